@@ -54,6 +54,17 @@ INVARIANT NormalizeModel
             rep.add_tlc(rr, f"MC_Decode+CanonicalModel+NormalizeModel[{v}]")
             if rr.violated:
                 rep.machinery_error(f"canonical-form invariants violated on the reference model [{v}]: {rr.violated[:2]}")
+    # the API machine on VALUES of the reference model: tags decide equality along every history (MC_System)
+    def mcs(v):
+        cfgs = wd / f"MC_System_{v}.cfg"
+        cfgs.write_text(f'SPECIFICATION Spec\nCONSTANTS\n  Ver = "{v}"\n  MaxLen = {4 if tier == "quick" else 5}\nINVARIANT NoRaise\nINVARIANT TagsDecide\n')
+        return v, run_tlc("MC_System", str(cfgs), workers=4, timeout=3000, heap="6g")
+
+    with ThreadPoolExecutor(max_workers=4) as ex:
+        for v, rr in ex.map(mcs, SUPPORTED):
+            rep.add_tlc(rr, f"MC_System[{v}]")
+            if rr.violated:
+                rep.machinery_error(f"MC_System[{v}]: the value algebra of Api.tla does not hold in the reference model: {rr.violated[:2]}")
     maxlen = 4 if tier == "quick" else 5
     hs = af.histories(rep, wd, maxlen)
     api_files = af.replay(rep, wd, hs, nbases=4 if tier == "quick" else None)
